@@ -4,19 +4,16 @@ use customasm::util::BigInt;
 use customasm::*;
 
 // Abstract pass oracle: the assembler state is a number 0..NS. A guessing pass from state s
-// leads to F[s] and reports Resolved iff R[s]; a no-guess pass from s leaves the state where
-// it is if it reports Resolved (G[s]) and otherwise fails (Unresolved or Err - the driver
+// leads to O.f[s] and reports Resolved iff O.r[s]; a no-guess pass from s leaves the state where
+// it is if it reports Resolved (O.g[s]) and otherwise fails (Unresolved or Err - the driver
 // loop treats both as failure of the run).
 // Item facts assumed of every real pass function (and checked per item in C02-b/C09-b):
-//   A1: R[s]  => F[s] == s      (Resolved means nothing changed in that pass)
-//   A2: G[s]  => F[s] == s      (a state a no-guess pass accepts is a fixed point of guessing)
+//   A1: O.r[s]  => O.f[s] == s      (Resolved means nothing changed in that pass)
+//   A2: O.g[s]  => O.f[s] == s      (a state a no-guess pass accepts is a fixed point of guessing)
 //   A3: a no-guess pass that is not Resolved fails and its state is never delivered
 const NS: usize = 5;
-static mut F: [usize; NS] = [0; NS];
-static mut R: [bool; NS] = [false; NS];
-static mut G: [bool; NS] = [false; NS];
-static mut STATE: usize = 0;
-static mut PASSES: usize = 0;
+struct Oracle { magic: u64, f: [usize; NS], r: [bool; NS], g: [bool; NS], state: usize, passes: usize }
+static mut O: Oracle = Oracle { magic: 0x4f52_5eed_c0de_0007, f: [0; NS], r: [false; NS], g: [false; NS], state: 0, passes: 0 };
 
 pub fn resolve_once_oracle(
     report: &mut diagn::Report, _opts: &asm::AssemblyOptions, _fs: &mut dyn util::FileServer,
@@ -24,25 +21,25 @@ pub fn resolve_once_oracle(
     _iteration_index: usize, _is_first_iteration: bool, is_last_iteration: bool,
 ) -> Result<asm::ResolutionState, ()> {
     unsafe {
-        PASSES += 1;
-        let s = STATE;
+        O.passes += 1;
+        let s = O.state;
         if is_last_iteration {
-            if G[s] {
+            if O.g[s] {
                 Ok(asm::ResolutionState::Resolved)
             } else {
                 report.error("did not converge");
                 Ok(asm::ResolutionState::Unresolved)
             }
         } else {
-            STATE = F[s];
-            if R[s] { Ok(asm::ResolutionState::Resolved) } else { Ok(asm::ResolutionState::Unresolved) }
+            O.state = O.f[s];
+            if O.r[s] { Ok(asm::ResolutionState::Resolved) } else { Ok(asm::ResolutionState::Unresolved) }
         }
     }
 }
 
 fn run(budget: usize) -> (Result<usize, ()>, usize, usize) {
     reset_report_model();
-    unsafe { STATE = 0; PASSES = 0; }
+    unsafe { O.state = 0; O.passes = 0; }
     let mut report = diagn::Report::new();
     let opts = asm::AssemblyOptions::new();
     let mut fs = NoFs;
@@ -51,7 +48,7 @@ fn run(budget: usize) -> (Result<usize, ()>, usize, usize) {
     let mut defs = asm::defs::init();
     let r = asm::resolver::resolve_iteratively(&mut report, &opts, &mut fs, &ast, &decls, &mut defs, budget);
     std::mem::forget(decls); std::mem::forget(defs); std::mem::forget(report); std::mem::forget(ast);
-    unsafe { (r, STATE, PASSES) }
+    unsafe { (r, O.state, O.passes) }
 }
 
 modelled! {
@@ -63,11 +60,11 @@ modelled! {
             while s < NS {
                 let f: usize = kani::any();
                 kani::assume(f < NS);
-                F[s] = f;
-                R[s] = kani::any();
-                G[s] = kani::any();
-                kani::assume(!R[s] || f == s); // A1
-                kani::assume(!G[s] || f == s); // A2
+                O.f[s] = f;
+                O.r[s] = kani::any();
+                O.g[s] = kani::any();
+                kani::assume(!O.r[s] || f == s); // A1
+                kani::assume(!O.g[s] || f == s); // A2
                 s += 1;
             }
         }
